@@ -338,3 +338,124 @@ pub fn run(which: Which, case: &CompositeCase, rec: &mut Rec) -> CheckResult {
         run_generic(which, case, &af, &move |i| lay2.rank[i] + 1, rec)
     }
 }
+
+
+/// C07 on composite frameworks: a list of 1-3 arguments (possibly repeated, possibly in different
+/// components). Credulous: some product extension meets the list iff every component has an extension and
+/// some component accepts one of its listed arguments credulously. Skeptical: every product extension meets
+/// the list iff some component has no extension, or in some component every extension contains a listed argument.
+pub fn run_lists(case: &CompositeCase, rec: &mut Rec) -> CheckResult {
+    let lay = layout(case);
+    if lay.n == 0 {
+        return Ok(());
+    }
+    let t = text(case);
+    rec.class(&format!("composite-n-{:03}+", (lay.n / 25) * 25));
+    if case.apx {
+        let af = AspartixReader::default().read(&mut t.as_bytes()).map_err(|e| Failure::new("C07/composite/reader-rejected-generated-file", e.to_string()))?;
+        let c2 = case.clone();
+        let lay2 = layout(case);
+        lists_generic(case, &af, &move |i| label_of(&c2, &lay2, i), rec)
+    } else {
+        let af = Iccma23Reader::default().read(&mut t.as_bytes()).map_err(|e| Failure::new("C07/composite/reader-rejected-generated-file", e.to_string()))?;
+        let lay2 = layout(case);
+        lists_generic(case, &af, &move |i| lay2.rank[i] + 1, rec)
+    }
+}
+
+fn lists_generic<T: LabelType>(case: &CompositeCase, af: &AAFramework<T>, mk_label: &dyn Fn(usize) -> T, rec: &mut Rec) -> CheckResult {
+    let lay = layout(case);
+    let r = reference(case);
+    let ncomp = all_comps(case).len();
+    let index: std::collections::HashMap<String, usize> = (0..lay.n).map(|i| (label_of(case, &lay, i), i)).collect();
+    let sems: Vec<Sem> = ALL_SEMS.iter().copied().filter(|s| case.hub == 0 || *s != Sem::STG).collect();
+    // the list: the queried picks in the given order (repetitions kept), at most 3
+    let list: Vec<usize> = case.queried.iter().take(3).map(|x| idx(*x, lay.n)).collect();
+    let labels: Vec<T> = list.iter().map(|i| mk_label(*i)).collect();
+    let refs: Vec<&T> = labels.iter().collect();
+    let spans = {
+        let mut c: Vec<usize> = list.iter().map(|i| lay.comp_of[*i].0).collect();
+        c.sort();
+        c.dedup();
+        c.len()
+    };
+    rec.class(&format!("composite-list-spans-{}-components", spans));
+    let ctx = || format!("list {:?} (nodes {:?}); {} arguments in {} components:\n{}", labels.iter().map(|l| l.to_string()).collect::<Vec<_>>(), list, lay.n, ncomp, text(case));
+    for q in [Q::DC, Q::DS] {
+        for (k, sem) in sems.iter().enumerate() {
+            let sem = *sem;
+            if q == Q::DC && sem == Sem::PR {
+                // answered through CO by the tools; the preferred solver has no credulous entry point
+                continue;
+            }
+            let encs = encodings_for(q, sem);
+            let e = encs[(case.enc_pick as usize + k) % encs.len()];
+            let enc = if e == Enc::ExpCo { Enc::Hybrid } else { e };
+            let exists = sem != Sem::ST || r.has_stable;
+            // per component: the mask of listed arguments
+            let mut lmask = vec![0u32; ncomp];
+            for i in &list {
+                let (c, l) = lay.comp_of[*i];
+                lmask[c] |= 1 << l;
+            }
+            let expected = if q == Q::DC {
+                exists && (0..ncomp).any(|c| lmask[c] != 0 && r.fams[c].exts(sem).iter().any(|x| x & lmask[c] != 0))
+            } else {
+                !exists || (0..ncomp).any(|c| lmask[c] != 0 && r.fams[c].exts(sem).iter().all(|x| x & lmask[c] != 0))
+            };
+            let sig = format!("C07/composite/{}-{}/{}", q.name(), sem.name(), enc.name());
+            rec.evals(2);
+            let shared = Shared::new(satwrap::DEFAULT_CAP);
+            let (st_with, cert) = guard(|| {
+                let mut s = SolverObj::new(af, kind_for(q, sem), enc, satwrap::factory(&shared));
+                if q == Q::DC {
+                    s.dc(&refs, true)
+                } else {
+                    s.ds(&refs, true)
+                }
+            })
+            .map_err(|p| Failure::new(format!("{}/panic", sig), p))?;
+            let shared2 = Shared::new(satwrap::DEFAULT_CAP);
+            let st_plain = guard(|| {
+                let mut s = SolverObj::new(af, kind_for(q, sem), enc, satwrap::factory(&shared2));
+                if q == Q::DC {
+                    s.dc(&refs, false).0
+                } else {
+                    s.ds(&refs, false).0
+                }
+            })
+            .map_err(|p| Failure::new(format!("{}/panic", sig), p))?;
+            if st_plain != expected {
+                return Err(Failure::new(format!("{}/plain/got-{}-expected-{}", sig, st_plain, expected), ctx()));
+            }
+            if st_with != expected {
+                return Err(Failure::new(format!("{}/with-certificate/got-{}-expected-{}", sig, st_with, expected), ctx()));
+            }
+            let promised = if q == Q::DC { st_with } else { !st_with };
+            match (promised, cert) {
+                (false, None) => {}
+                (false, Some(_)) => return Err(Failure::new(format!("{}/unexpected-certificate", sig), ctx())),
+                (true, None) => return Err(Failure::new(format!("{}/missing-certificate", sig), ctx())),
+                (true, Some(e)) => {
+                    let masks = project(&e, af, &index, &lay, ncomp).map_err(|m| Failure::new(format!("{}/foreign-or-duplicate-member", sig), format!("{}; {}", m, ctx())))?;
+                    let mut meets = false;
+                    for c in 0..ncomp {
+                        if !r.fams[c].exts(sem).contains(&masks[c]) {
+                            return Err(Failure::new(format!("{}/certificate-not-an-extension", sig), format!("component {}; {}", c, ctx())));
+                        }
+                        if masks[c] & lmask[c] != 0 {
+                            meets = true;
+                        }
+                    }
+                    if (q == Q::DC) != meets {
+                        return Err(Failure::new(format!("{}/certificate-membership-wrong", sig), ctx()));
+                    }
+                }
+            }
+        }
+    }
+    if spans >= 2 && rec.nontrivial(&serde_json::to_string(case).unwrap_or_default()) {
+        rec.sample(|| json!({"composite_framework_arguments": lay.n, "list_nodes": list, "components_spanned": spans}));
+    }
+    Ok(())
+}
